@@ -196,7 +196,9 @@ func gen(f vh.Flags, r *vrand.R, emit func(In)) {
 			as = append(as, Action{Kind: "sleep", US: 10000})
 			in.Sessions = []Session{{Actions: as}, {}}
 			if builder {
-				// the same workload on an index made by the offline Builder
+				// the same workload on an index made by the offline Builder (safe batches: after
+				// the clean close the source must hold every batch)
+				in.Layout.Unsafe = false
 				for i := 0; i < nids; i++ {
 					if r.Chance(3, 4) {
 						ver++
